@@ -291,7 +291,22 @@ def main(prop: str, tier: str = "quick") -> int:
     known_oids = {f["obligation"] for _, (f, _) in known_hit.items()}
 
     for r in unsupported:
-        print(f"UNDECIDED property={prop} obligation={r['target']} reason=unsupported:{r['unsupported']}")
+        bs = r.get("bounded_standin") or {}
+        if bs.get("failing_input") is not None:
+            rel = f"replays/{prop}-bounded-{hashlib.sha1(r['target'].encode()).hexdigest()[:8]}.json"
+            with open(os.path.join(HERE, rel), "w") as fh:
+                json.dump({"property": prop, "obligation": r["target"] + "/bounded_standin", "contract": r["contract"],
+                           "why_bounded": r["unsupported"], "failing_input": bs["failing_input"], "observed": bs.get("observed"),
+                           "replayed_on_real_code": True, "bound": bs.get("bound")}, fh, indent=1, default=str)
+            lines.append(f"VIOLATION property={prop} replay={rel}")
+            print(f"  bounded stand-in of {r['target']} (function left the verifiable subset: {r['unsupported']}) found a failing input")
+            exit_code = 1
+            n_viol += 1
+            bounded_results.append({"contract": r["contract"] + ".bounded_standin", "bounded_result": {k: v for k, v in bs.items() if k != "failing_input"}})
+            continue
+        if bs:
+            bounded_results.append({"contract": r["contract"] + ".bounded_standin", "bounded_result": bs})
+        print(f"UNDECIDED property={prop} obligation={r['target']} reason=unsupported:{r['unsupported']}" + (f" bounded-standin={bs.get('examples', '?')} examples, no failing input" if bs else ""))
     for oid in undecided:
         print(f"UNDECIDED property={prop} obligation={oid} reason=solver-unknown")
     for r in checker_errors:
